@@ -370,8 +370,59 @@ func (res *CheckResult) checkExpression(lit parser.ValueExpr, requiredType strin
 	case *parser.StringLiteral:
 		res.assertHasType(lit, requiredType, TypeString)
 	case *parser.BinaryInfix:
-		res.checkExpression(lit.Left, TypeAny)
-		res.checkExpression(lit.Right, TypeAny)
+		// both operands (and the result) of "+" and "-" have the same type,
+		// which is either number or monetary
+		switch requiredType {
+		case TypeNumber, TypeMonetary:
+			res.checkExpression(lit.Left, requiredType)
+			res.checkExpression(lit.Right, requiredType)
+
+		default:
+			switch leftType := res.inferType(lit.Left); leftType {
+			case TypeNumber, TypeMonetary:
+				res.checkExpression(lit.Left, leftType)
+				res.checkExpression(lit.Right, leftType)
+				res.assertHasType(lit, requiredType, leftType)
+
+			case "":
+				// unknown type: the operand itself is reported while visiting it
+				res.checkExpression(lit.Left, TypeAny)
+				res.checkExpression(lit.Right, TypeAny)
+
+			default:
+				res.checkExpression(lit.Left, TypeAny)
+				res.checkExpression(lit.Right, TypeAny)
+				res.assertHasType(lit.Left, TypeMonetary+"|"+TypeNumber, leftType)
+			}
+		}
+	}
+}
+
+// The static type of an expression ("" when it is not known)
+func (res *CheckResult) inferType(lit parser.ValueExpr) string {
+	switch lit := lit.(type) {
+	case *parser.Variable:
+		decl, ok := res.declaredVars[lit.Name]
+		if !ok || decl.Type == nil || !isTypeAllowed(decl.Type.Name) {
+			return ""
+		}
+		return decl.Type.Name
+	case *parser.MonetaryLiteral:
+		return TypeMonetary
+	case *parser.AccountLiteral:
+		return TypeAccount
+	case *parser.RatioLiteral:
+		return TypePortion
+	case *parser.AssetLiteral:
+		return TypeAsset
+	case *parser.NumberLiteral:
+		return TypeNumber
+	case *parser.StringLiteral:
+		return TypeString
+	case *parser.BinaryInfix:
+		return res.inferType(lit.Left)
+	default:
+		return ""
 	}
 }
 
